@@ -86,9 +86,21 @@ impl<'t> Chk<'t> {
           }
           if let Some(t) = &nd.ident_text {
             if &self.text[s..e] != t {
-              // the parser accepts white space between '$' / '$$' and the name (implicit white space of
+              // the parser accepts white space and comments between '$' / '$$' and the name (implicit white space of
               // the pest grammar, a C03 matter): the span is then still the exact source of the identifier
-              let squeezed: String = self.text[s..e].chars().filter(|c| !c.is_whitespace()).collect();
+              let mut squeezed = String::new();
+              let mut in_comment = false;
+              for c in self.text[s..e].chars() {
+                if in_comment {
+                  if c == '\n' {
+                    in_comment = false;
+                  }
+                } else if c == ';' {
+                  in_comment = true;
+                } else if !c.is_whitespace() {
+                  squeezed.push(c);
+                }
+              }
               if &squeezed == t && self.text[s..e].starts_with('$') {
                 self.inner_ws += 1;
               } else {
